@@ -39,7 +39,7 @@ def main():
             "guard": "verif",
             "enable": "go build -tags verif (the harness module /verif/harness replaces github.com/bolom009/go-clipper2 by /repo and is built with -tags verif on every check)",
             "baseline_off_cmd": "cd /repo && GOFLAGS=-mod=mod GOPROXY=off go test -vet=off -count=1 -json ./...",
-            "source_commits": ["e6396a4", "0cd0e01", "175adc0"],
+            "source_commits": ["e6396a4", "0cd0e01", "175adc0", "f951ef9"],
             "add_only": True,
         },
         "engines": [
